@@ -546,6 +546,45 @@ class NpCalls:
         # np.where(arr != fill, np.arange(n), 0): index-selection table (ffill)
         return out
 
+    def np_select(self, interp, st, args, kwargs, node):
+        # np.select([c0, c1, ...], [v0, v1, ...], default): the first condition that holds picks the value
+        conds, choices = (args[0] if args else None), (args[1] if len(args) > 1 else None)
+        default = self.arg(args, kwargs, 2, 'default', const(0))
+        d = self.deps_of(args, kwargs)
+        if conds is None or choices is None or conds.elts is None or choices.elts is None or len(conds.elts) != len(choices.elts):
+            return AV(ty='ndarray', deps=d, store='fresh')
+        vals = [as_array(v) if v.ty != 'ndarray' else v for v in list(choices.elts) + [default]]
+        out = join_all(vals).w(deps=d, const=None, store='fresh', ty='ndarray', axes=default.axes if default.axes is not None else vals[0].axes)
+        # two-sided single-step image correction: select([d > 0.5, d < -0.5], [d - 1, d + 1], default=d)
+        dnode = next((k.value for k in node.keywords if k.arg == 'default'), None) if node is not None else None
+        if dnode is None and node is not None and len(node.args) > 2:
+            dnode = node.args[2]
+        dtext = interp.sx(dnode) if dnode is not None else None
+        g = default.geo
+        dirs = []
+        for c, ch in zip(conds.elts, choices.elts):
+            if c.cmp is None or ch.bin is None:
+                dirs = None
+                break
+            cop, cl, cr, ctext, _ = c.cmp
+            bo, bl, br, btext, _ = ch.bin
+            ok = (ctext == btext == dtext and has_const(cr) and has_const(br) and cval(br) == 1 and bo in ('+', '-') and abs(abs(cval(cr)) - 0.5) < 0.01
+                  and ((cop in ('>', '>=') and bo == '-' and cval(cr) > 0) or (cop in ('<', '<=') and bo == '+' and cval(cr) < 0)))
+            if not ok:
+                dirs = None
+                break
+            dirs.append(bo)
+        if dirs and g is not None and g[0] == 'FDIFF':
+            for bo in dirs:
+                interp.emit('image_correction', node, how='single', diff=default, base=default, direction=bo)
+            if set(dirs) == {'+', '-'} and g[1] in ('W2', 'W1'):
+                out = out.w(geo=('FDIFF', 'CW'))
+            elif len(set(dirs)) == 1 and g[1] == 'W2':
+                out = out.w(geo=('FDIFF', 'W1', dirs[0]))
+            else:
+                out = out.w(geo=g)
+        return out
+
     def np_nonzero(self, interp, st, args, kwargs, node):
         mask = args[0]
         d = self.deps_of(args, kwargs)
